@@ -8,7 +8,7 @@ from .common import call
 
 PROP = "C11"
 LEVEL = "exploration"
-CASES = {"quick": 3000, "thorough": 150000}
+CASES = {"quick": 3000, "thorough": 1500000}
 SHARDS = {"quick": 8, "thorough": 16}
 ANCHORS = ["reconciliation.py:_order_curie_remapping", "reconciliation.py:remap_curie_prefixes"]
 DECIDING = ["remap_curie_prefixes"]
